@@ -103,7 +103,7 @@ Lemma exec_call_release t l g k :
     else (touch l, woke_log g (rel_woke k), rel_heap k, ONext).
 Proof.
   cbn [exec].
-  destruct (exec_release t (mkloc None None None None None false) g k) as (l' & o & Hex & Ho).
+  destruct (exec_release t (mkloc None None None None None false false) g k) as (l' & o & Hex & Ho).
   rewrite Hex. destruct (at_max_h k); [reflexivity|].
   destruct Ho as [-> | ->]; reflexivity.
 Qed.
@@ -210,6 +210,32 @@ Theorem tie_getters s :
   eval_expr sem_max_value_getter (core s) = match maxv s with Some m => VNat m | None => VNone end /\
   map (fun x => eval_expr x (core s)) sem_statistics_args = [VNat (length (waiters s))].
 Proof. repeat split. Qed.
+
+(* ---- C08 clause (a) on the regenerated code: acquire() called from an effectively cancelled scope with a permit
+   free and nobody queued raises the cancellation without taking the permit: value, queue, futures untouched, nothing
+   enqueued, nobody woken.  (When it must wait the source has no cancellation check before it enqueues: the task waits
+   on its future and the cancellation is delivered to the waiting task, C03.) ---- *)
+Theorem cancelled_entry_noeffect s t : value s > 0 -> waiters s = [] ->
+  exists l, exec sem_acquire_entry t (loc_entry_cancelled None) log0 (core s) = (l, log0, core s, OCancelled).
+Proof.
+  intros Hv Hw. unfold sem_acquire_entry. cbn. rewrite Hw.
+  destruct (value s) as [|v]; [inversion Hv|]. cbn. eexists. reflexivity.
+Qed.
+
+Theorem cancelled_entry_contended_as_live s t : value s = 0 \/ waiters s <> [] ->
+  snd (exec sem_acquire_entry t (loc_entry_cancelled None) log0 (core s)) =
+    snd (exec sem_acquire_entry t (loc_entry None None) log0 (core s)) /\
+  snd (fst (exec sem_acquire_entry t (loc_entry_cancelled None) log0 (core s))) =
+    snd (fst (exec sem_acquire_entry t (loc_entry None None) log0 (core s))) /\
+  snd (fst (fst (exec sem_acquire_entry t (loc_entry_cancelled None) log0 (core s)))) =
+    snd (fst (fst (exec sem_acquire_entry t (loc_entry None None) log0 (core s)))).
+Proof.
+  intros H. unfold sem_acquire_entry.
+  destruct s as [fa mx v ws fu nf ph mc i0 h il ex dr q]; cbn in *.
+  destruct v as [|v]; cbn; [repeat split|].
+  destruct ws as [|w r]; cbn; [|repeat split].
+  destruct H as [H | H]; congruence.
+Qed.
 
 (* ---- the machine built from the generated segments is the model ---- *)
 Theorem gstep_eq_step s o : gstep sem_prog s o = step s o.
@@ -341,6 +367,9 @@ Example ex_gen_run_hands_over :
   let s := gfinal false 1 None [AcqBegin 1; Resume 1; AcqBegin 2; AcqBegin 3; Cancel 2; Release 1] in
   value s = 0 /\ waiters s = [] /\ infl s = [3] /\ held s = [].
 Proof. vm_compute. repeat split. Qed.
+Example ex_check_after_effect_is_stuck_cancelled :
+  snd (exec (SSeq SDecValue SCkIf) 1 (loc_entry_cancelled None) log0 (core (init false 1 None))) = OStuck.
+Proof. vm_compute. reflexivity. Qed.
 Example ex_check_after_effect_is_stuck :
   snd (exec (SSeq SDecValue SCkIf) 1 (loc_entry None None) log0 (core (init false 1 None))) = OStuck.
 Proof. vm_compute. reflexivity. Qed.
